@@ -1317,9 +1317,17 @@ func windowSpecSQL(w *WindowSpec) string {
 
 func windowFrameSQL(f *WindowFrame) string {
 	if f.End != nil {
-		return fmt.Sprintf("%s BETWEEN %s AND %s", f.Type, f.Start.Type, f.End.Type)
+		return fmt.Sprintf("%s BETWEEN %s AND %s", f.Type, frameBoundSQL(&f.Start), frameBoundSQL(f.End))
 	}
-	return fmt.Sprintf("%s %s", f.Type, f.Start.Type)
+	return fmt.Sprintf("%s %s", f.Type, frameBoundSQL(&f.Start))
+}
+
+// frameBoundSQL writes a frame bound; "n PRECEDING" / "n FOLLOWING" carry their offset in Value.
+func frameBoundSQL(b *WindowFrameBound) string {
+	if b.Value != nil {
+		return exprSQL(b.Value) + " " + b.Type
+	}
+	return b.Type
 }
 
 func fetchSQL(f *FetchClause) string {
